@@ -14,7 +14,12 @@ literally a key of the class's table - anything else is refused.  Control struct
           | if cond: block [else: block]
           | try: STMT except E: block [else: block]       (STMT one await-free statement)
           | while cond: block                             (cond mentions exactly one of the class's queues; no await)
-          | await X.checkpoint_if_cancelled()             -> SCkIf
+          | await X.checkpoint_if_cancelled()             -> SCkIf   ONLY as the FIRST statement of an async method, and
+                                                             every async method of CKIF_FIRST must begin with it
+                                                             (F53: since checkpoint_if_cancelled() may yield and then
+                                                             return, nothing the method tests may be separated from
+                                                             what it then does by that yield; SemGenEq /
+                                                             LimiterGenEq rely on `entry = SCkIf; body`)
           | AWAIT | try: AWAIT except (CancelledError | BaseException): block
   AWAIT ::= await X.cancel_shielded_checkpoint() | await fut | await event.wait()   (each once per method; not in a
             loop, not in the body of another try, not in the handler of an await, not in a synchronous method)
@@ -51,6 +56,7 @@ SEM = dict(
     cls="Semaphore", out="SemGen.v", imp="SemImp", pre="sem_",
     order=[("release", (), False), ("acquire_nowait", (), False), ("acquire", (), True)],
     points={"acquire": {"AwYield", "AwFut"}},
+    ckif_first={"acquire"},
     conds={"self._value > 0": "CValuePos", "self._value == 0": "CValueZero", "not self._waiters": "CNoWaiters",
            "self._waiters": "(CNot CNoWaiters)", "self._max_value is not None": "CHasMax",
            "self._value == self._max_value": "CValueIsMax", "fut.cancelled()": "CFutCancelled",
@@ -73,6 +79,7 @@ LIM = dict(
            ("acquire_on_behalf_of_nowait", ("borrower",), False), ("acquire_nowait", (), False),
            ("acquire_on_behalf_of", ("borrower",), True), ("total_tokens", ("value",), False)],
     points={"acquire_on_behalf_of": {"AwYield", "AwEvent"}},
+    ckif_first={"acquire_on_behalf_of"},
     conds={"borrower in self._borrowers": "CInBorrowers", "self._wait_queue": "CQueueNonEmpty",
            "not self._wait_queue": "(CNot CQueueNonEmpty)", "len(self._borrowers) < self._total_tokens": "CFree",
            "len(self._borrowers) >= self._total_tokens": "(CNot CFree)", "borrower in self._wait_queue": "CInQueue",
@@ -151,6 +158,19 @@ class Method:
             refuse(self.name, fn, "unexpected signature")
         self.sym = dict(zip(args[1:], params))     # python local name -> canonical name
         self.points, self.atoms = {}, []
+        body = [st for st in fn.body if not is_doc(st)]
+        self.first = body[0] if body else None
+        if fn.name in cfg.get("ckif_first", ()) and not (self.first is not None and self.is_ckif(self.first)):
+            refuse(self.name, fn, "the method must begin with `await ...checkpoint_if_cancelled()` (F53 order: "
+                                  "check first, then test and take in one segment)")
+
+    @staticmethod
+    def is_ckif(st):
+        if not (isinstance(st, ast.Expr) and isinstance(st.value, ast.Await)):
+            return False
+        v = st.value.value
+        return isinstance(v, ast.Call) and isinstance(v.func, ast.Attribute) \
+            and v.func.attr == "checkpoint_if_cancelled" and not v.args and not v.keywords
 
     def canon(self, n):
         return ast.unparse(Ren(self.sym).visit(copy.deepcopy(n)))
@@ -264,9 +284,10 @@ class Method:
                 return self.atom(f"(SCall {callee} {cfg['calls'][c][1]})")
             refuse(nm, st, "unsupported statement")
         if isinstance(st, ast.Expr) and isinstance(st.value, ast.Await):
-            v = st.value.value
-            if isinstance(v, ast.Call) and isinstance(v.func, ast.Attribute) and v.func.attr == "checkpoint_if_cancelled" \
-                    and not v.args and not v.keywords:
+            if self.is_ckif(st):
+                if st is not self.first:
+                    refuse(nm, st, "checkpoint_if_cancelled() is accepted only as the first statement of the method "
+                                   "(it may yield and then return: a test before it would be stale, F53)")
                 return self.atom("SCkIf")
             return self.suspend(st, st.value, None, K, fl)
         if isinstance(st, ast.If):
